@@ -182,6 +182,25 @@ func genC09Subsets(w *caseWriter, st *pkgStats, rng *rand.Rand, special bool) in
 			n++
 			runPkgCase(w, fmt.Sprintf("s-%s-shared-%d", format, k), pkgDesc{YAML: marshalConfig(&c), Files: extra, Formats: []string{format}}, st, nil)
 		}
+		// scripts of exactly one mebibyte, one byte more, and a mebibyte and a half (installers that carry their payload):
+		// every byte, whatever the size
+		{
+			c := baseConfig("bigscripts")
+			c.Contents = files.Contents{{Source: "src/f1", Destination: "/usr/bin/f1"}}
+			var extra []extraFile
+			for i, s := range own {
+				if format != "deb" && i >= 2 {
+					break // deb has the most slots (seven control members); two of the others' are enough
+				}
+				size := []int{1<<20 + 1, 1 << 20, 3 << 19}[i%3]
+				body := bytes.Repeat([]byte("#!/bin/sh\n# "+s.name+" payload line\n"), size/len("#!/bin/sh\n# "+s.name+" payload line\n")+1)[:size-1]
+				body = append(body, '\n')
+				extra = append(extra, extraFile{Path: "scripts/big-" + s.name, Hex: hex.EncodeToString(body), Mode: 0o755, MTime: 1650000000})
+				s.set(&c, "scripts/big-"+s.name)
+			}
+			n++
+			runPkgCase(w, fmt.Sprintf("s-%s-scripts-beyond-a-mebibyte", format), pkgDesc{YAML: marshalConfig(&c), Files: extra, Formats: []string{format}}, st, nil)
+		}
 		// script paths that go through a symbolic link and back up: the operating system resolves "hooks/.." to the
 		// parent of the link's TARGET, a lexical clean-up of the path to the directory that holds the link - and
 		// different scripts sit at the two places
